@@ -11,7 +11,8 @@ one() {
   echo "$s|$id|rc=$rc|$sig"
 }
 n=0
-for d in seeded/*/; do
+# SEEDS="C01-e C02-f" restricts the run to those seeds
+for d in ${SEEDS:-seeded/*/}; do
   one "$(basename "$d")" &
   n=$((n+1)); [ $((n % 3)) -eq 0 ] && wait
 done
